@@ -235,6 +235,30 @@ FINDINGS.append(
     )
 )
 
+C05OPT = dict(append_version=False, original_code_as_comment=False, generated_comments=False, inline_functions=False, compact=False, tail_call_optimization=False, use_push_pop_functions=False)
+FINDINGS.append(
+    dict(
+        id="KF-C05-label-collision-after-mangling",
+        property="C05",
+        also=[],
+        trigger="label_collision_after_mangling",
+        what="function labels are the qualified name with '_' -> '.', early returns use '<label>end', generated labels are lb<kind><n>: functions f and fend, a_b next to module a's b, or a function called lbwhile1 give one label defined twice / a jump that resolves to the wrong definition",
+        signatures=dict(C05=[dict(monitor="loader", event="duplicate-label"), dict(monitor="text-relation"), dict(monitor="lock-step")]),
+        witness=dict(C05=dict(src=H + "def f(a):\n    if a > 1:\n        return\n    db.Setting = a\ndef fend(a):\n    db.Mode = a\nwhile True:\n    yield_()\n    f(d0.Temperature)\n    f(2)\n    fend(1)\n    fend(2)\n", options=C05OPT, env_seeds=["w:0", "w:1"], stream="witness")),
+    )
+)
+FINDINGS.append(
+    dict(
+        id="KF-C05-function-named-like-logic-type",
+        property="C05",
+        also=[],
+        trigger="function_named_like_logic_type",
+        what="a user function whose name is also a logic type / slot type / batch mode name (def On(), def Setting()): remove_labels replaces the label token everywhere, so 's db On 1' becomes 's db 7 1' (7 = line of the function), while the labelled output keeps the ambiguous name",
+        signatures=dict(C05=[dict(monitor="lock-step"), dict(monitor="text-relation")]),
+        witness=dict(C05=dict(src=H + "def On(a):\n    db.On = a\nwhile True:\n    yield_()\n    On(d0.Error)\n    On(1)\n", options=C05OPT, env_seeds=["w:0", "w:1"], stream="witness")),
+    )
+)
+
 C16 = dict(
     id="KF-C16-intrinsic-output-register",
     property="C16",
